@@ -8,6 +8,7 @@ harness/frr          real sessionManager + templateConfig, tokenizer (no meaning
 harness/frrk8s       real frr-k8s session manager, FRRConfiguration handed to the callback -> projection
 spec/FRRTrace.tla    role C: TLC evaluates the predicates on the real programs / resources"""
 import concurrent.futures
+import hashlib
 import json
 import os
 
@@ -17,6 +18,7 @@ PROPS = ["C14", "C15"]
 
 FRR_PKG = "internal/bgp/frr"
 K8S_PKG = "internal/bgp/frrk8s"
+CTRL_PKG = "internal/k8s/controllers"
 CONFIRM_PER_SIG = 2
 JUDGES = 12
 
@@ -29,7 +31,8 @@ def test_files(pkg):
 def kit_files():
     # kit.go + this family's file only: another family's kit file under construction must not break the build
     return {"internal/verifkit/kit.go": os.path.join(vlib.HARNESS, "kit", "kit.go"),
-            "internal/verifkit/frrcfg.go": os.path.join(vlib.HARNESS, "kit", "frrcfg.go")}
+            "internal/verifkit/frrcfg.go": os.path.join(vlib.HARNESS, "kit", "frrcfg.go"),
+            "internal/verifkit/frrcfg_k8s.go": os.path.join(vlib.HARNESS, "kit", "frrcfg_k8s.go")}
 
 
 def overlay(chk, pkg, hdir, tag):
@@ -47,6 +50,13 @@ def overlay(chk, pkg, hdir, tag):
 
 
 # --------------------------------------------------------------------------- roles A + B
+
+def looks(sc):
+    """Number of observations a scenario asks for."""
+    if "views" in sc:
+        return sum(1 for op in sc["orders"][0] if op["look"] > 0)
+    return len(sc["orders"])
+
 
 def enumerate_inputs(chk):
     """TLC checks Design14 / Design15 on the designed generator for every input and prints the input (Emit).
@@ -76,9 +86,14 @@ def enumerate_inputs(chk):
     scs = []
     for n, k in enumerate(sorted(seen)):
         o = seen[k]
-        scs.append({"id": "s%06d" % n, "node": o["node"], "ns": o["ns"], "sessions": o["sessions"], "orders": o["orders"]})
-    vlib.log("  %s: %d states, %d session sets, %d orders, %.1fs" % (cfg, res.distinct, len(scs),
-                                                                     sum(len(s["orders"]) for s in scs), res.wall))
+        sc = {"id": "s%06d" % n, "node": o["node"], "ns": o["ns"], "sessions": o["sessions"], "orders": o["orders"]}
+        if "views" in o:                      # a history: one order, observed after every operation
+            sc["id"] = "h%06d" % n
+            sc["views"], sc["frronly"] = o["views"], o["frronly"]
+        scs.append(sc)
+    vlib.log("  %s: %d states, %d session sets (%d orders) + %d histories (%d looks), %.1fs"
+             % (cfg, res.distinct, sum(1 for s in scs if "views" not in s), sum(looks(s) for s in scs if "views" not in s),
+                sum(1 for s in scs if "views" in s), sum(looks(s) for s in scs if "views" in s), res.wall))
     return scs, pwcases
 
 
@@ -106,45 +121,51 @@ def execute_pw(chk, pwcases, tag):
 
 
 def execute(chk, scs, tag, modes, text=False):
-    """Plays the scenarios on the real code; returns {mode: [observations sorted by (id, ord)]}."""
+    """Plays the scenarios on the real code; returns {mode: [observations sorted by (scenario, seq)]}; modes out of
+    frr (FRR session manager), k8s (FRR-K8s session manager, value handed to the callback), rec (the same through the real
+    FRRK8sReconciler and a fake client).  Histories that contain a refusal only FRR mode knows are not given to k8s / rec."""
     d = os.path.join(chk.work, "h_" + tag)
     os.makedirs(d, exist_ok=True)
-    scen = os.path.join(d, "scen.ndjson")
-    with open(scen, "w") as fh:
-        for sc in scs:
-            fh.write(json.dumps(sc, separators=(",", ":")) + "\n")
     jobs = []
-    if "frr" in modes:
-        jobs.append(("frr", FRR_PKG, "^TestVerifFrrcfg$", overlay(chk, FRR_PKG, "frr", tag + "_frr")))
-    if "k8s" in modes:
-        jobs.append(("k8s", K8S_PKG, "^TestVerifFrrcfgK8s$", overlay(chk, K8S_PKG, "frrk8s", tag + "_k8s")))
+    for mode, pkg, run, hdir in (("frr", FRR_PKG, "^TestVerifFrrcfg$", "frr"), ("k8s", K8S_PKG, "^TestVerifFrrcfgK8s$", "frrk8s"),
+                                 ("rec", CTRL_PKG, "^TestVerifFrrcfgReconcile$", "k8scontrollers")):
+        if mode not in modes:
+            continue
+        mine = [sc for sc in scs if mode == "frr" or not sc.get("frronly")]
+        if not mine:
+            continue
+        scen = os.path.join(d, "scen_%s.ndjson" % mode)
+        with open(scen, "w") as fh:
+            for sc in mine:
+                fh.write(json.dumps(sc, separators=(",", ":")) + "\n")
+        jobs.append((mode, pkg, run, overlay(chk, pkg, hdir, tag + "_" + mode), scen, sum(looks(sc) for sc in mine)))
 
     def one(job):
-        mode, pkg, run, ov = job
+        mode, pkg, run, ov, scen, want = job
         env = {"VERIF_SCENARIOS": scen, "VERIF_OBS": os.path.join(d, "obs_%s.ndjson" % mode), "VERIF_SEED": chk.seed}
         if text:
             env["VERIF_TEXT"] = "1"
         return vlib.go_test(pkg, run, ov, env, timeout=1500)
 
-    with concurrent.futures.ThreadPoolExecutor(max_workers=2) as ex:
+    with concurrent.futures.ThreadPoolExecutor(max_workers=3) as ex:
         results = list(ex.map(one, jobs))
     out = {}
-    want = sum(len(sc["orders"]) for sc in scs)
-    for (mode, pkg, run, ov), (rc, txt) in zip(jobs, results):
+    for (mode, pkg, run, ov, scen, want), (rc, txt) in zip(jobs, results):
         if rc != 0:
             raise vlib.Inconclusive("harness %s failed (rc=%s):\n%s" % (pkg, rc, txt[-3000:]))
         obs = [json.loads(l) for l in open(os.path.join(d, "obs_%s.ndjson" % mode))]
         if len(obs) != want:
-            raise vlib.Inconclusive("harness %s logged %d observations for %d orders" % (pkg, len(obs), want))
-        obs.sort(key=lambda o: (o["id"], o["ord"]))
-        # the harness writes sessions + program / resource once per distinct artefact of a session set (same = the order
-        # that produced the byte-identical text / JSON first); share them here
-        at = {(o["id"], o["ord"]): o for o in obs}
+            raise vlib.Inconclusive("harness %s logged %d observations for %d looks" % (pkg, len(obs), want))
+        obs.sort(key=lambda o: (o["id"], o["seq"]))
+        # the harness writes expected sessions + program / resource once per distinct (artefact, sessions) of a scenario
+        # (same = the observation that had them first); share them here
+        at = {(o["id"], o["seq"]): o for o in obs}
         for o in obs:
             if o.get("same"):
                 src = at[(o["id"], o["same"])]
                 if src["sha"] != o["sha"]:
-                    raise vlib.Inconclusive("harness %s: order %s of %s refers to order %s with another digest" % (pkg, o["ord"], o["id"], o["same"]))
+                    raise vlib.Inconclusive("harness %s: observation %s of %s refers to %s with another digest"
+                                            % (pkg, o["seq"], o["id"], o["same"]))
                 for k in ("sessions", "prog", "cr", "text", "json"):
                     if k in src:
                         o[k] = src[k]
@@ -157,23 +178,48 @@ def execute(chk, scs, tag, modes, text=False):
     return out
 
 
-def lines_for(prop, out):
-    """The observation lines the judge reads: C14 = mode frr; C15 = the resource joined with the program of the same
-    (session set, order)."""
-    if prop == "C14":
-        return out["frr"]
-    prog = {(o["id"], o["ord"]): o for o in out["frr"]}
+def state_id(o):
+    """Identity of the state a history observation is expected to show: the open sessions and, as a set, what each was
+    last ACCEPTED to advertise.  Observations of different histories (and steps) with the same identity must show the
+    same artefact: they become lines of one id for the judge."""
+    st = sorted((s["k"], sorted(vlib.canon(a) for a in s["advs"])) for s in o["sessions"] if not s["ghost"])
+    return "h" + hashlib.sha1(vlib.canon(st).encode()).hexdigest()[:14]
+
+
+def lines_for(prop, out, hist_ids):
+    """The observation lines the judge reads.  C14: mode frr.  C15: the resource (callback path, reconciler path) joined
+    with the program of the same scenario / order / step.  Line id: the scenario for one-shot scenarios (orders must
+    agree), the expected state for histories (every history and step reaching that state must agree)."""
     lines = []
-    for o in out["k8s"]:
-        f = prog[(o["id"], o["ord"])]
-        j = {"id": o["id"], "ord": o["ord"], "mode": "c15", "node": o["node"], "ns": o["ns"], "sessions": o["sessions"],
-             "created": o["created"], "created14": f["created"], "errs": o["errs"], "errs14": f["errs"], "sha": o["sha"], "sha14": f["sha"],
-             "len": o["len"], "calls": o["calls"], "cr": o["cr"], "prog": f["prog"]}
-        if o.get("json"):
-            j["json"] = o["json"]
-        if f.get("text"):
-            j["text"] = f["text"]
-        lines.append(j)
+    if prop == "C14":
+        for o in out["frr"]:
+            l = dict(o)
+            l["scen"], l["id"], l["order"] = o["id"], (state_id(o) if o["id"] in hist_ids else o["id"]), o["ord"]
+            l["ord"] = o["seq"]
+            lines.append(l)
+    else:
+        prog = {(o["id"], o["ord"], o["step"]): o for o in out["frr"]}
+        for path in ("k8s", "rec"):
+            for o in out.get(path, []):
+                f = prog[(o["id"], o["ord"], o["step"])]
+                j = {"id": (state_id(o) if o["id"] in hist_ids else o["id"]), "ord": o["seq"] + (100000 if path == "rec" else 0),
+                     "scen": o["id"], "order": o["ord"], "step": o["step"], "mode": "c15", "path": o["path"], "node": o["node"], "ns": o["ns"],
+                     "sessions": o["sessions"], "created": o["created"], "created14": f["created"], "errs": o["errs"],
+                     "errs14": f["errs"], "refusals": o["refusals"], "refusedok": o["refusedok"] and f["refusedok"],
+                     "sha": o["sha"], "sha0": o["sha0"], "sha14": f["sha"], "len": o["len"], "calls": o["calls"], "cr": o["cr"],
+                     "prog": f["prog"]}
+                if o.get("json"):
+                    j["json"] = o["json"]
+                if f.get("text"):
+                    j["text"] = f["text"]
+                lines.append(j)
+    # ord must be unique within an id (several histories share a state id)
+    lines.sort(key=lambda l: (l["id"], l["scen"], l["ord"]))
+    last, n = None, 0
+    for l in lines:
+        n = n + 1 if l["id"] == last else 1
+        last = l["id"]
+        l["ord0"], l["ord"] = l["ord"], n
     return lines
 
 
@@ -183,11 +229,12 @@ def judge(chk, lines, tag):
     id therefore exists only if an order produced something different, which is what Deterministic forbids."""
     groups = {}
     for o in lines:                                   # lines are sorted by (id, ord)
-        groups.setdefault((o["id"], o["sha"], o.get("sha14", "")), []).append(o)
+        groups.setdefault((o["id"], o["sha"], o.get("sha0", ""), o.get("sha14", ""), o.get("refusedok", True)), []).append(o)
     p = os.path.join(chk.work, "obs_%s.ndjson" % tag)
     with open(p, "w") as fh:
         # within one id: orders that produced no resource at all first (see FRRTrace!Verdict15), then by first order
-        for key in sorted(groups, key=lambda k: (k[0], bool(groups[k][0].get("cr", {}).get("present", True)), groups[k][0]["ord"])):
+        for key in sorted(groups, key=lambda k: (k[0], bool(groups[k][0].get("refusedok", True)),
+                                                 bool(groups[k][0].get("cr", {}).get("present", True)), groups[k][0]["ord"])):
             o = {k: v for k, v in groups[key][0].items() if k not in ("text", "json")}
             o["ords"] = [x["ord"] for x in groups[key]]
             fh.write(json.dumps(o, separators=(",", ":")) + "\n")
@@ -209,6 +256,8 @@ def signature(name, fail, line):
     det = [d for d in (fail.get("info", {}).get("detail") or []) if d[1] == name]
     if ".Params." in name or name.endswith(".PasswordXor"):
         return name
+    if name.endswith(".Handover"):
+        return "%s|path=%s" % (name, line.get("path"))
     if det:
         # the first (alphabetically) kind of neighbor it fails on: iface / v4 / v6
         return "%s|nbr=%s" % (name, sorted({_kind(by_k[d[0]]) for d in det})[0])
@@ -224,8 +273,9 @@ def _short_session(s):
 def _short(line):
     if line["mode"] == "pw":
         return {k: line[k] for k in ("id", "mode", "case", "password", "secret", "panic")}
-    o = {"id": line["id"], "ord": line["ord"], "mode": line["mode"], "sessions": [_short_session(s) for s in line["sessions"]],
-         "errs": line.get("errs"), "sha": line["sha"][:16], "len": line["len"]}
+    o = {"id": line["id"], "scenario": line.get("scen"), "order": line.get("order"), "step": line.get("step"), "mode": line["mode"],
+         "path": line.get("path", ""), "sessions": [_short_session(s) for s in line["sessions"]],
+         "errs": line.get("errs"), "refused": line.get("refusals"), "sha": line["sha"][:16], "len": line["len"]}
     if "prog" in line:
         pr = line["prog"]
         o["program"] = {"prefix_list_entries": len(pr["plists"]), "route_map_entries": len(pr["rmaps"]),
@@ -257,14 +307,14 @@ def rerun(chk, items, tag):
     pws = [x for x in items if "sessions" not in x]
     lines = []
     if scs:
-        lines += lines_for(chk.prop, execute(chk, scs, tag, modes_for(chk.prop), text=True))
+        lines += lines_for(chk.prop, execute(chk, scs, tag, modes_for(chk.prop), text=True), {sc["id"] for sc in scs if "views" in sc})
     if pws:
         lines += execute_pw(chk, pws, tag)
     return lines
 
 
 def modes_for(prop):
-    return ["frr"] if prop == "C14" else ["frr", "k8s"]
+    return ["frr"] if prop == "C14" else ["frr", "k8s", "rec"]
 
 
 def assumptions(chk):
@@ -297,6 +347,14 @@ def assumptions(chk):
         "'sorted' (C15) is accepted for the byte order of the strings or for (family, address, length) order",
         "a session carrying both a password and a secret reference may be refused by NewSession (then it is not expected in the "
         "resource and not compared with the FRR text) or carried with exactly one of the two",
+        "histories: a Set that is refused (more than 63 communities on a later advertisement; in FRR mode also one prefix with "
+        "two local preferences) changes nothing: the expected state is the last ACCEPTED Set of every open session; if the code "
+        "accepts such a Set the observations after it are not judged (DRIFT); SyncBFDProfiles repeats the same profiles, "
+        "SyncExtraInfo passes the empty string; observations of different histories / steps with the same expected state must "
+        "show the same text / resource",
+        "C15.Handover: the value handed to the config-changed callback is looked at again after the operation returned, and the "
+        "object the real FRRK8sReconciler (DEBUG level, fake client) wrote is read after a first and after a second Reconcile; "
+        "both looks must give the same digest (name, namespace, spec)",
         "creation orders: all permutations of NewSession (+ Set after each, advertisements forwards / all Sets afterwards in "
         "reverse, advertisements backwards) and one history with a preliminary Set that is overwritten and an extra session that "
         "advertises and is closed again; Deterministic compares the SHA-256 of the rendered text / of the marshalled resource",
@@ -313,7 +371,7 @@ def run(chk):
             pwobs = fpw.result()
     else:
         out, pwobs = execute(chk, scs, "all", modes_for(chk.prop)), []
-    lines = lines_for(chk.prop, out) + pwobs
+    lines = lines_for(chk.prop, out, {sc["id"] for sc in scs if "views" in sc}) + pwobs
     if pwobs:
         chk.cov["password_cases"] = len(pwobs)
     for c in pwcases:
@@ -323,22 +381,32 @@ def run(chk):
     chk.cov["traces_validated_against_impl"] += len(lines)
     chk.cov["evaluations"] += len(lines)
     chk.cov["judged_distinct_artefacts"] = nlines
-    chk.cov["session_sets"] = len(scs)
-    chk.cov["by_sessions"] = {str(k): sum(1 for sc in scs if sum(1 for s in sc["sessions"] if not s["ghost"]) == k) for k in (1, 2, 3)}
+    chk.cov["session_sets"] = sum(1 for sc in scs if "views" not in sc)
+    chk.cov["histories"] = sum(1 for sc in scs if "views" in sc)
+    chk.cov["history_states"] = len({l["id"] for l in lines if l.get("scen", "").startswith("h")})
+    chk.cov["by_sessions"] = {str(k): sum(1 for sc in scs if "views" not in sc and sum(1 for s in sc["sessions"] if not s["ghost"]) == k)
+                              for k in (1, 2, 3)}
     nontrivial = {l["sha"] for l in lines if any(s["advs"] and not s["ghost"] for s in l.get("sessions", []))}
     chk.cov["distinct_nontrivial"] += len(nontrivial)
     chk.cov["rule"] = ("every session set TLC enumerates (spec/FRRMC.tla, tier and -seed) is created on the real session manager in "
-                       "every listed creation order; one evaluation = one (session set, order); spec/FRRTrace.tla judges each distinct "
-                       "artefact of a session set once (orders with the same SHA-256 share the verdict); "
+                       "every listed creation order and observed at the end; every history is played on one session manager and "
+                       "observed after every operation; one evaluation = one observation; spec/FRRTrace.tla judges each distinct "
+                       "artefact of a session set / of an expected history state once (observations with the same SHA-256 share the "
+                       "verdict, different ones of one id violate Deterministic); "
                        "non-trivial = distinct rendered %s (SHA-256) among session sets with at least one advertisement"
                        % ("texts" if chk.prop == "C14" else "FRRConfiguration resources"))
     chk.cov["exhaustive"] = False
     chk.cov["drift"] += len(info)
-    if info:
+    undef = sum(1 for f in info if "INFO.UndefinedListReference" in f["fails"])
+    if undef:
         print("INFO: %d programs reference a prefix-list that is not defined (harmless under FRR's semantics, "
-              "see assumptions); not a verdict" % len(info))
+              "see assumptions); not a verdict" % undef)
+    norefusal = sum(1 for f in info if "INFO.RefusalNotObserved" in f["fails"])
+    if norefusal:
+        print("DRIFT: %d observations follow a Set that the model expects to be refused but the code accepted; "
+              "their expected state is undefined, not judged" % norefusal)
     for k in (1, 2, 3):
-        s = next((l for l in lines if "sessions" in l and sum(1 for x in l["sessions"] if not x["ghost"]) == k and l["ord"] == 1
+        s = next((l for l in lines if "sessions" in l and sum(1 for x in l["sessions"] if not x["ghost"]) == k and l.get("order") == 1
                   and any(x["advs"] for x in l["sessions"])), None)
         if s is not None:
             chk.cov["samples"].append(_short(s))
@@ -355,8 +423,8 @@ def confirm(chk, verdict, byid, lines):
         l = line_at[(f["id"], f["ord"])]
         for name in names:
             per_sig.setdefault(signature(name, f, l), [])
-            if f["id"] not in per_sig[signature(name, f, l)]:
-                per_sig[signature(name, f, l)].append(f["id"])
+            if l.get("scen", l["id"]) not in per_sig[signature(name, f, l)]:
+                per_sig[signature(name, f, l)].append(l.get("scen", l["id"]))
     chosen = []
     for sig, ids in sorted(per_sig.items()):
         # the smallest failing scenarios are the most readable ones
@@ -391,14 +459,16 @@ def report(chk, verdict, lines, byid):
             if sig in seen:
                 continue
             seen.add(sig)
+            sc = byid[l.get("scen", l["id"])]
             detail = {"observation": _short(l), "judge": f.get("info")}
-            if "orders" in byid[f["id"]]:
-                detail["order"] = byid[f["id"]]["orders"][f["ord"] - 1]
+            if "orders" in sc:
+                detail["order"] = sc["orders"][l["order"] - 1]
+                detail["observed_after_operation"] = l.get("step")
             if l.get("text"):
                 detail["text"] = l["text"]
             if l.get("json"):
                 detail["resource_json"] = l["json"]
-            chk.fail(sig, name, detail=detail, scenario={"family": "frr", "scenarios": [byid[f["id"]]]})
+            chk.fail(sig, name, detail=detail, scenario={"family": "frr", "scenarios": [sc]})
 
 
 def replay(chk, path):
